@@ -133,6 +133,17 @@ impl LocalBindings {
         self.blocks.push(FxHashMap::default());
     }
 
+    /// Enter the body of a function, method or test. It is evaluated
+    /// in a stack frame of its own, so no local variable of the
+    /// enclosing toplevel is visible inside it.
+    fn enter_item(&mut self) -> Vec<FxHashMap<SymbolName, (Type, Position)>> {
+        std::mem::replace(&mut self.blocks, vec![FxHashMap::default()])
+    }
+
+    fn exit_item(&mut self, outer_blocks: Vec<FxHashMap<SymbolName, (Type, Position)>>) {
+        self.blocks = outer_blocks;
+    }
+
     fn exit_block(&mut self) {
         self.blocks.pop();
     }
@@ -183,7 +194,11 @@ struct TypeCheckVisitor<'a> {
 impl TypeCheckVisitor<'_> {
     fn visit_toplevel_item(&mut self, item: &ToplevelItem) {
         match &item {
-            ToplevelItem::Fun(_, fun_info, _) => self.visit_fun_info(fun_info),
+            ToplevelItem::Fun(_, fun_info, _) => {
+                let outer_blocks = self.bindings.enter_item();
+                self.visit_fun_info(fun_info);
+                self.bindings.exit_item(outer_blocks);
+            }
             ToplevelItem::Method(method_info, _) => self.visit_method_info(method_info),
             ToplevelItem::Test(test_info) => self.visit_test_info(test_info),
             ToplevelItem::Enum(enum_info) => self.visit_enum_info(enum_info),
@@ -215,12 +230,14 @@ impl TypeCheckVisitor<'_> {
         // Don't include tests call sites when computing callees, so
         // discard any additional callee found.
         let old_callees = self.callees.clone();
+        let outer_blocks = self.bindings.enter_item();
         self.visit_block(&test_info.body);
+        self.bindings.exit_item(outer_blocks);
         self.callees = old_callees;
     }
 
     fn visit_method_info(&mut self, method_info: &MethodInfo) {
-        self.bindings.enter_block();
+        let outer_blocks = self.bindings.enter_item();
 
         let mut type_bindings = FxHashMap::default();
         if let Some(fun_info) = method_info.fun_info() {
@@ -296,7 +313,7 @@ impl TypeCheckVisitor<'_> {
             self.visit_fun_info(fun_info);
         }
 
-        self.bindings.exit_block();
+        self.bindings.exit_item(outer_blocks);
     }
 
     fn visit_fun_info(&mut self, fun_info: &FunInfo) {
